@@ -113,6 +113,27 @@ fn flight_union_flags() {
     println!("flight union field out: {:?}", st.schema().unwrap().field(0));
 }
 
+/// union as the child of a sliced list
+fn union_in_sliced_list() {
+    use arrow_buffer::OffsetBuffer;
+    use arrow_schema::{UnionFields, UnionMode};
+    for mode in [UnionMode::Sparse, UnionMode::Dense] {
+        let fields = UnionFields::try_new(vec![0, 1], vec![Field::new("i", DataType::Int32, true), Field::new("s", DataType::Utf8, true)]).unwrap();
+        let tids: Vec<i8> = vec![0, 1, 0, 1, 0];
+        let u = match mode {
+            UnionMode::Sparse => UnionArray::try_new(fields.clone(), tids.into(), None, vec![Arc::new(Int32Array::from(vec![10, 11, 12, 13, 14])), Arc::new(StringArray::from(vec!["a", "b", "c", "d", "e"]))]),
+            UnionMode::Dense => UnionArray::try_new(fields.clone(), tids.into(), Some(vec![0i32, 0, 1, 1, 2].into()), vec![Arc::new(Int32Array::from(vec![10, 12, 14])), Arc::new(StringArray::from(vec!["b", "d"]))]),
+        }
+        .unwrap();
+        let item = Arc::new(Field::new("item", DataType::Union(fields, mode), true));
+        let l = ListArray::new(item.clone(), OffsetBuffer::new(vec![0i32, 2, 3, 5].into()), Arc::new(u), None);
+        let schema = Arc::new(Schema::new(vec![Field::new("l", DataType::List(item), true)]));
+        let batch = RecordBatch::try_new(schema.clone(), vec![Arc::new(l)]).unwrap();
+        roundtrip(&format!("list<{mode:?} union> unsliced"), schema.clone(), batch.clone(), IpcWriteOptions::default());
+        roundtrip(&format!("list<{mode:?} union> slice(1,2)"), schema.clone(), batch.slice(1, 2), IpcWriteOptions::default());
+    }
+}
+
 pub fn run() {
     // RunEndEncoded under metadata V4
     let ree = RunArray::<Int16Type>::try_new(&Int16Array::from(vec![2i16, 3]), &Int64Array::from(vec![Some(7), None])).unwrap();
@@ -129,6 +150,7 @@ pub fn run() {
     }
     let empty = RunArray::<Int32Type>::try_new(&Int32Array::from(Vec::<i32>::new()), &StringArray::from(Vec::<&str>::new())).unwrap();
     roundtrip("ree-empty", schema.clone(), RecordBatch::try_new(schema.clone(), vec![Arc::new(empty)]).unwrap(), IpcWriteOptions::default());
+    union_in_sliced_list();
     tracker_ahead();
     dense_union_decoder();
     flight_union_flags();
